@@ -346,6 +346,20 @@ func c11Check(run *vfRun, c c11Case, st *vfsStack, cons *vfsConsumer, label stri
 			if len(got) > 0 {
 				lastGot = got[len(got)-1]
 			}
+			// a stream that ENDED (with an error the client sees and reconnects on) has not skipped anything; only an
+			// in-memory store whose ring has moved past the consumer may legitimately end one this way
+			select {
+			case err := <-cons.done:
+				cons.done <- err
+				if be == "memdb" && err != nil && want-lastGot >= uint64(c.MemCap)-2 {
+					run.Count("streams_ended_because_the_ring_moved_past_the_consumer", 1)
+					return ok
+				}
+				run.Violation(fmt.Sprintf("C11/stream-ended-behind-head/%s/%s", sched, be),
+					fmt.Sprintf("stream from %d ended with %v after delivering up to %d while the store head is %d and the consumer was reading", c.From, err, lastGot, want), info)
+				return false
+			default:
+			}
 			if atomic.LoadInt64(&cons.preReg) > 0 && c.From != 0 {
 				run.Violation(fmt.Sprintf("C11/rounds-appended-during-catchup-not-delivered/%s", be),
 					fmt.Sprintf("stream from %d still open, all appends returned, last delivered %d, store head %d; %d append(s) started before the live callback was registered (schedule %s)", c.From, lastGot, want, cons.preReg, sched), info)
@@ -541,6 +555,7 @@ func c11Run(run *vfRun, c c11Case) {
 	interleaved := 0
 	// 1. appends while the scan is parked inside Send
 	if gateAt > 0 {
+		gateReleased := false
 		select {
 		case <-cons.atGate:
 			ch := appendN(st, c.DuringN, cons)
@@ -550,13 +565,13 @@ func c11Run(run *vfRun, c c11Case) {
 			} else {
 				run.Count("appends_blocked_behind_parked_scan", 1) // C12's subject; here it only means no interleaving happened
 				close(cons.gate)
-				cons.gate = nil
+				gateReleased = true
 				if _, done := waitErr(ch, 10*time.Second); !done {
 					run.Inconclusive("append did not return after the scan was released")
 					return
 				}
 			}
-			if cons.gate != nil {
+			if !gateReleased {
 				close(cons.gate)
 			}
 		case <-time.After(3 * time.Second):
